@@ -112,13 +112,15 @@ func (p *proxy) call(ctx erpc.UnknownCallCtx) (interface{}, *erpc.Status) {
 	}
 	label.ServiceMethod = ctx.ServiceMethod()
 	callcmd := p.callForwarder(&label).Call(label.ServiceMethod, ctx.InputBodyBytes(), &result, settings...)
-	callcmd.InputMeta().VisitAll(func(key, value []byte) {
-		ctx.SetMeta(goutil.BytesToString(key), goutil.BytesToString(value))
-	})
+	// NOTE: the reply metadata is nil if no reply was received (e.g. the connection is closed).
+	if inputMeta := callcmd.InputMeta(); inputMeta != nil {
+		inputMeta.VisitAll(func(key, value []byte) {
+			ctx.SetMeta(goutil.BytesToString(key), goutil.BytesToString(value))
+		})
+	}
 	stat := callcmd.Status()
 	if !stat.OK() && stat.Code() < 200 && stat.Code() > 99 {
-		stat.SetCode(erpc.CodeBadGateway)
-		stat.SetMsg(erpc.CodeText(erpc.CodeBadGateway))
+		stat = badGateway(stat)
 	}
 	return result, stat
 }
@@ -141,10 +143,18 @@ func (p *proxy) push(ctx erpc.UnknownPushCtx) *erpc.Status {
 	label.ServiceMethod = ctx.ServiceMethod()
 	stat := p.pushForwarder(&label).Push(label.ServiceMethod, ctx.InputBodyBytes(), settings...)
 	if !stat.OK() && stat.Code() < 200 && stat.Code() > 99 {
-		stat.SetCode(erpc.CodeBadGateway)
-		stat.SetMsg(erpc.CodeText(erpc.CodeBadGateway))
+		stat = badGateway(stat)
 	}
 	return stat
+}
+
+// badGateway returns a new Bad Gateway status that keeps the cause of stat.
+// NOTE: stat itself must not be modified, the forwarder may have returned a status
+// object shared by the whole process (e.g. the connection closed status of the session).
+func badGateway(stat *erpc.Status) *erpc.Status {
+	return stat.Copy(nil).
+		SetCode(erpc.CodeBadGateway).
+		SetMsg(erpc.CodeText(erpc.CodeBadGateway))
 }
 
 var peerName = filepath.Base(os.Args[0])
